@@ -395,4 +395,111 @@ theorem parse_fromB64_b64Enc : ∀ (b : Bytes), Bytes.WF b → BocParse.fromB64 
       Option.bind_eq_bind, Option.bind_some, Option.pure_def, Option.some.injEq, List.cons.injEq, and_true]
     omega
 
+/-! ### input forms of an emitted serialisation, both models of `Boc.__init__` -/
+
+open TonVerif.Model.BocForms TonVerif.Proofs.BocForms in
+/-- an emitted serialisation is `b5ee9c72 ++ rest` with every byte < 256 -/
+theorem emitted_magic (o : Opts) (as : List ARec) (h1 : 1 ≤ as.length) (hn : as.length < 2 ^ 32)
+    (hP : (payloadOf (sizeW as) as).length * 2 < 2 ^ 64) (ok : ∀ a ∈ as, a.OK as.length) :
+    ∃ rest, Bytes.WF rest ∧ bodyOf o as ++ tailOf o as = [0xb5, 0xee, 0x9c, 0x72] ++ rest :=
+  ⟨_, emitted_wf o as h1 hn hP ok, by simp [bodyOf, tailOf, bocMagic, List.append_assoc]⟩
+
+open TonVerif.Model.BocForms TonVerif.Proofs.BocForms in
+/-- reference model (`inputBytes`): bytes, hex text and base64 text of a BoC all give the bytes -/
+theorem forms_inputBytes (rest : Bytes) (h : Bytes.WF rest) (form : Sum Bytes (List Char))
+    (hf : form ∈ [Sum.inl ([0xb5, 0xee, 0x9c, 0x72] ++ rest), Sum.inr (hexEnc ([0xb5, 0xee, 0x9c, 0x72] ++ rest)),
+      Sum.inr (b64Enc ([0xb5, 0xee, 0x9c, 0x72] ++ rest))]) :
+    inputBytes form = some ([0xb5, 0xee, 0x9c, 0x72] ++ rest) := by
+  have hb : Bytes.WF ([0xb5, 0xee, 0x9c, 0x72] ++ rest) := WF_append (by decide) h
+  simp only [List.mem_cons, List.not_mem_nil, or_false] at hf
+  rcases hf with rfl | rfl | rfl
+  · rfl
+  · rw [inputBytes_hex _ hb]; rfl
+  · rw [inputBytes_b64 rest h]; rfl
+
+open TonVerif.Model.BocForms TonVerif.Proofs.BocForms in
+/-- the parser builder's model (`BocParse.bocInit`) gives the same bytes on the same three forms -/
+theorem forms_bocInit (rest : Bytes) (h : Bytes.WF rest) (inp : BocParse.BocInput)
+    (hf : inp = .bytes ([0xb5, 0xee, 0x9c, 0x72] ++ rest) ∨ inp = .str (String.ofList (hexEnc ([0xb5, 0xee, 0x9c, 0x72] ++ rest))) ∨
+      inp = .str (String.ofList (b64Enc ([0xb5, 0xee, 0x9c, 0x72] ++ rest)))) :
+    BocParse.bocInit inp = some ([0xb5, 0xee, 0x9c, 0x72] ++ rest) := by
+  have hb : Bytes.WF ([0xb5, 0xee, 0x9c, 0x72] ++ rest) := WF_append (by decide) h
+  rcases hf with rfl | rfl | rfl
+  · rfl
+  · simp only [BocParse.bocInit, String.toList_ofList, parse_fromHex, fromHex_hexEnc _ hb]
+  · simp only [BocParse.bocInit, String.toList_ofList, parse_fromHex, fromHex_b64_magic rest, parse_fromB64_b64Enc _ hb]
+
+/-! ### a decision procedure for `NoCollision` on concrete DAGs (non-vacuity examples with sharing) -/
+
+mutual
+  /-- structural equality test of cell objects -/
+  def pbeq : PCell → PCell → Bool
+    | .mk i rs, .mk j ss => decide (i = j) && pbeqL rs ss
+  def pbeqL : List PCell → List PCell → Bool
+    | [], [] => true
+    | a :: as, b :: bs => pbeq a b && pbeqL as bs
+    | [], _ :: _ => false
+    | _ :: _, [] => false
+end
+
+mutual
+  theorem pbeq_eq : ∀ (a b : PCell), pbeq a b = true → a = b
+    | .mk i rs, .mk j ss, h => by
+      rw [pbeq] at h
+      simp only [Bool.and_eq_true, decide_eq_true_eq] at h
+      rw [h.1, pbeqL_eq rs ss h.2]
+  theorem pbeqL_eq : ∀ (as bs : List PCell), pbeqL as bs = true → as = bs
+    | [], [], _ => rfl
+    | a :: as, b :: bs, h => by
+      rw [pbeqL] at h
+      simp only [Bool.and_eq_true] at h
+      rw [pbeq_eq a b h.1, pbeqL_eq as bs h.2]
+    | [], _ :: _, h => by rw [pbeqL] at h; cases h
+    | _ :: _, [], h => by rw [pbeqL] at h; cases h
+end
+
+/-- executable `NoCollision` -/
+def noCollisionB (root : PCell) : Bool :=
+  (subcells root).all fun a => (subcells root).all fun b => a.key != b.key || pbeq a b
+
+theorem noCollision_of_B (root : PCell) (h : noCollisionB root = true) : NoCollision root := by
+  intro a ha b hb hk
+  simp only [noCollisionB, List.all_eq_true] at h
+  have := h a ha b hb
+  simp only [Bool.or_eq_true, bne_iff_ne, ne_eq] at this
+  rcases this with h' | h'
+  · exact absurd hk h'
+  · exact pbeq_eq a b h'
+
+/-! ### facts the property file needs about the emitted bytes and the root -/
+
+/-- what `to_boc` returns starts with the magic b5ee9c72 and consists of bytes -/
+theorem toBoc_magic (root : PCell) (fuel : Nat) (ord : List PCell) (o : Opts)
+    (nc : NoCollision root) (ok : ∀ c ∈ subcells root, CellOK c) (h : root.order fuel = some ord)
+    (hn : ord.length < 2 ^ 32) (hP : (payloadOf (sizeW (orderRecs ord)) (orderRecs ord)).length * 2 < 2 ^ 64) :
+    ∃ rest, Bytes.WF rest ∧
+      bodyOf o (orderRecs ord) ++ tailOf o (orderRecs ord) = [0xb5, 0xee, 0x9c, 0x72] ++ rest := by
+  have vo := order_valid root fuel ord nc h
+  have okord : ∀ c ∈ ord, CellOK c := fun c hc => ok c (vo.sound c hc)
+  obtain ⟨_, hok, _⟩ := flatten_order root ord vo okord
+  have hlen : (orderRecs ord).length = ord.length := by simp [orderRecs]
+  have h1 : 1 ≤ (orderRecs ord).length := by
+    rw [hlen]
+    have := vo.root_first
+    cases ord with
+    | nil => simp at this
+    | cons a l => simp
+  exact emitted_magic o (orderRecs ord) h1 (by rw [hlen]; exact hn) hP hok
+
+/-- the root of a spec-valid typed tree is within the builder's capacity -/
+theorem root_limits (H : Bytes → Bytes) (kind : Int) (bits : Bits) (refs : List Cell)
+    (wf : CellSpec.TreeWF H (.mk kind bits refs)) (ty : Typed (.mk kind bits refs)) : bits.length ≤ 1023 ∧ refs.length ≤ 4 := by
+  obtain ⟨p, hb⟩ := tree_builds H _ wf
+  have okp := build_ok H _ p (shape_of H _ wf ty) hb p (self_mem_subcells p)
+  have ht := (build_tree H _ p hb).1
+  rw [treeOf_eq] at ht
+  injection ht with _ h2 h3
+  rw [← h2, ← h3, List.length_map]
+  exact ⟨okp.bits_le, okp.refs_le⟩
+
 end TonVerif.Proofs.BocRoundTrip
